@@ -10,6 +10,8 @@ def run(ctx):
     ctx.tlc_mc("", "Mux", "MC_Mux_thorough.cfg" if thorough else "MC_Mux.cfg", workers=16, heap="8g")
     ctx.tlc_expect_violation("", "Mux", "MC_Mux_AsIsIds.cfg", "pinned id allocation: two concurrent NewChannel calls read the same counter value")
     ctx.tlc_expect_violation("", "Mux", "MC_Mux_AsIsAck.cfg", "pinned setup: acknowledgement queued by value, NewChannel's pointer assertion fails")
+    # unbounded in the number of creators: distinct ids under the atomic reservation (TLAPS)
+    ctx.tlaps("MuxIdsProof")
     t = os.path.join(ctx.scratch, "mux.ndjson")
     p = ctx.run_driver(["mux", "-out", t, "-seed", ctx.seed, "-rounds", 40 if thorough else 8], race=True, allow_fail=True)
     if p.returncode != 0:
